@@ -1,5 +1,5 @@
 """C10 - custom (prefix) dictionary compression round-trips with the same dictionary."""
-import json, os, shutil
+import json, os
 import vlib
 
 PROP = "C10"
@@ -8,24 +8,8 @@ AMPLE = 1 << 22
 
 
 def build_harness(profile="dev"):
-    repo = os.environ.get("VERIF_REPO")
-    if not repo or os.path.abspath(repo) == "/repo":
-        return vlib.harness_build("c10", profile)
-    src = os.path.join(vlib.ROOT, "harness")
-    dst = os.path.join(vlib.BUILD, "mut_c10", "harness")
-    os.makedirs(os.path.join(dst, "src", "bin"), exist_ok=True)
-    os.makedirs(os.path.join(dst, ".cargo"), exist_ok=True)
-    tgt = os.path.join(vlib.BUILD, "mut_c10", "target")
-    open(os.path.join(dst, "Cargo.toml"), "w").write(open(os.path.join(src, "Cargo.toml")).read().replace('path = "/repo"', 'path = "%s"' % repo))
-    open(os.path.join(dst, ".cargo", "config.toml"), "w").write('[net]\noffline = true\n[build]\ntarget-dir = "%s"\n' % tgt)
-    for f in ("lib.rs", "streamlib.rs", "dictgen.rs"):
-        shutil.copy(os.path.join(src, "src", f), os.path.join(dst, "src", f))
-    shutil.copy(os.path.join(src, "src", "bin", "c10.rs"), os.path.join(dst, "src", "bin", "c10.rs"))
-    if os.path.exists(os.path.join(src, "Cargo.lock")):
-        shutil.copy(os.path.join(src, "Cargo.lock"), os.path.join(dst, "Cargo.lock"))
-    with vlib.Lock("cargo-mut-c10"):
-        rc, out = vlib.sh("timeout 1500 cargo build --offline --bin c10 2>&1", cwd=dst, env={"RUSTFLAGS": "--cfg %s" % vlib.GUARD}, timeout=1600)
-    return rc == 0, out, os.path.join(tgt, "debug", "c10")
+    """against /repo, or (seeded-change / mutation runs, VERIF_REPO=<copy>) the private copy vlib keeps"""
+    return vlib.harness_build("c10", profile)
 
 
 def build_model():
@@ -261,6 +245,9 @@ def check(run):
         if i.startswith("TOOL"):
             run.report("spec-violation", dict(m, request=req), {"impl": i[:300]}, what="harness process died on this case")
             continue
+        if len(run.violations) >= 12:
+            run.note("12 violations recorded; the remaining cases of this run are not evaluated")
+            break
         ok = evaluate(run, req, m, i, a, stats)
         if ok and sres.get(k, "OK") != "OK":
             run.report("spec-violation", dict(m, request=req), {"impl": i.split(" ## ")[0][:400], "model": a[:200], "spec": sres[k]},
